@@ -21,7 +21,7 @@ META = {
             "xor 0x80, xor 0xff, delete, insert 0x00, truncate}; every swap of two packets, every drop, every "
             "duplication/replay position; thorough adds all pairs of bit flips inside the first packet and (length-"
             "field byte, any byte) pairs. Quick: all 144 suites client->server plus 14 class representatives "
-            "server->client; thorough: all 144 suites, both directions. The receiver must deliver only an unmodified prefix of the sent "
+            "server->client; thorough: all 144 suites, both directions, plus 81 streams that cross a re-key between class representatives. The receiver must deliver only an unmodified prefix of the sent "
             "messages - no message decoded from bytes at or after the first changed byte - then raise or wait.",
     "note": "bounded adversary: one edit (two bit flips in thorough) per stream; cryptographic strength (forgery) is not "
             "something enumeration decides; 'waits' = the byte queue ran dry inside read_message",
@@ -61,31 +61,40 @@ def suite_class(suite):
     return ("etm-" if P.is_etm(m) else "classic-") + mode
 
 
-def make_script(suite):
-    return [("switch",) + tuple(suite) + (False,)] + [
-        ("msg", n, False, PTYPES[i], 20 + i) for i, n in enumerate(LENGTHS)]
+def make_script(suite, suite2=None):
+    """One suite: NEWKEYS, m0, m1, m2.  With suite2: NEWKEYS, m0, NEWKEYS (encrypted, re-key to suite2), m1, m2."""
+    m = [("msg", n, False, PTYPES[i], 20 + i) for i, n in enumerate(LENGTHS)]
+    first = ("switch",) + tuple(suite) + (False,)
+    if suite2 is None:
+        return [first] + m
+    return [first, m[0], ("switch",) + tuple(suite2) + (False,)] + m[1:]
 
 
-def record(direction, suite):
-    script = make_script(suite)
+def record(direction, suite, suite2=None):
+    script = make_script(suite, suite2)
     _stream, chunks, sent = P.transmit(direction, script)
     return script, chunks[0], chunks[1:], sent
 
 
-def regions_of(direction, suite, packets):
+def regions_of(direction, script, packets):
     """Byte regions of the recorded encrypted stream, from the independent decoder: list of (start, end, name)."""
-    dec = R.decoder_for("sha1", P.K_n(0), P.H_n(0), P.SID0, direction, suite[0], suite[1], seq=1,
-                        compress=suite[2] != "none")
+    dec, seq, nsw = None, 1, 0
     out, off = [], 0
-    for i, pk in enumerate(packets):
-        inf = dec.decode(pk)
-        if inf.problems or not inf.regions:
-            out.append((off, off + len(pk), "p%d:undecoded" % i))
-        else:
-            for name, (a, b) in inf.regions.items():
-                if b > a:
-                    out.append((off + a, off + b, "p%d:%s" % (i, name)))
-        off += len(pk)
+    for i, (it, pk) in enumerate(zip(script, [None] + list(packets))):
+        if pk is not None:
+            inf = dec.decode(pk)
+            if inf.problems or not inf.regions:
+                out.append((off, off + len(pk), "p%d:undecoded" % (i - 1)))
+            else:
+                for name, (a, b) in inf.regions.items():
+                    if b > a:
+                        out.append((off + a, off + b, "p%d:%s" % (i - 1, name)))
+            off += len(pk)
+            seq = dec.seq
+        if it[0] == "switch":
+            dec = R.decoder_for("sha1", P.K_n(nsw), P.H_n(nsw), P.SID0, direction, it[1], it[2], seq=seq,
+                                compress=it[3] != "none")
+            nsw += 1
     return out
 
 
@@ -159,13 +168,17 @@ def intact_packets(packets, edited):
 
 
 def judge(sent, r, n_intact):
+    """r.done counts every packet the receiver consumed, including the leading clear NEWKEYS and, in re-key
+    streams, the encrypted NEWKEYS."""
     got = r.got
     for k, g in enumerate(got):
         if k >= len(sent):
             return "delivered-extra-message"
         if g != sent[k]:
             return "delivered-reordered-message" if g in sent else "delivered-different-message"
-    if len(got) > n_intact:
+    if isinstance(r.error, P.NotNewkeys):
+        return "delivered-message-in-place-of-newkeys"
+    if r.done - 1 > n_intact:
         return "accepted-tampered-packet"
     return None
 
@@ -184,18 +197,19 @@ def run_edit(direction, script, newkeys, sent, edited):
 
 
 def do_suite(item, acc):
-    _, tier, suite, direction = item
-    script, newkeys, packets, sent = record(direction, suite)
+    _, tier, suite, direction = item[:4]
+    suite2 = item[4] if len(item) > 4 else None
+    script, newkeys, packets, sent = record(direction, suite, suite2)
     enc = b"".join(packets)
-    regions = regions_of(direction, suite, packets)
-    cls = suite_class(suite)
+    regions = regions_of(direction, script, packets)
+    cls = suite_class(suite) if suite2 is None else "rekey"
     # sanity: the unedited stream is delivered completely, then the reader waits
     r0 = run_edit(direction, script, newkeys, sent, enc)
     if r0.got != sent or not r0.waits:
         raise AssertionError("seam: unedited stream not delivered for %r: %r %r" % (suite, r0.got, r0.error))
     edits = [(lab, (pos,), data) for lab, pos, data in E.byte_edits(enc)]
     edits += list(packet_edits(packets))
-    if tier != "quick":
+    if tier != "quick" and suite2 is None:
         edits += list(double_edits(packets))
     acc.cmax("max_stream_len", len(enc))
     for lab, pos, edited in edits:
@@ -211,17 +225,18 @@ def do_suite(item, acc):
             acc.count("tampered_packets_accepted_unchanged")
             clause = None
         if clause:
-            dims = {"framing": cls, "mac": "-" if cls == "gcm" else suite[1], "zlib": suite[2] != "none",
+            dims = {"framing": cls, "mac": "-" if cls in ("gcm", "rekey") else suite[1], "zlib": suite[2] != "none",
                     "edit": "flip" if EDIT_CLASS[lab] == "flip2" else EDIT_CLASS[lab]}
             P.sig_violation(acc, clause, dims, {"suite": suite, "dir": direction, "edit": lab, "pos": list(pos), "region": region,
                                 "first_changed_byte": lcp, "intact_packets": n_intact,
                                 "delivered": [g[:24] for g in r.got], "sent": [s[:24] for s in sent],
                                 "then": outcome_of(r) if (r.waits or r.error) else "none"},
-                          {"suite": list(suite), "dir": direction, "edit": lab, "pos": list(pos)})
+                          {"suite": list(suite), "suite2": list(suite2) if suite2 else None, "dir": direction,
+                           "edit": lab, "pos": list(pos)})
         else:
-            acc.nt((suite, EDIT_CLASS[lab], region, len(r.got)))
+            acc.nt((suite, suite2, EDIT_CLASS[lab], region, r.done - 1))
             acc.count("outcome:" + outcome_of(r))
-            acc.count("delivered_prefix_len_%d" % len(r.got))
+            acc.count("packets_accepted_before_stop_%d" % (r.done - 1))
     if suite in (QUICK_SUITES[0], QUICK_SUITES[8], QUICK_SUITES[11]) and direction == "c2s":
         acc.sample({"suite": suite, "dir": direction, "message_lengths": list(LENGTHS),
                     "packet_wire_lengths": [len(p) for p in packets],
@@ -232,7 +247,10 @@ def items_for(tier):
     if tier == "quick":
         return [("suite", tier, s, "c2s") for s in P.all_suites()] + \
                [("suite", tier, s, "s2c") for s in QUICK_SUITES]
-    return [("suite", tier, s, d) for s in P.all_suites() for d in ("c2s", "s2c")]
+    items = [("suite", tier, s, d) for s in P.all_suites() for d in ("c2s", "s2c")]
+    reps = QUICK_SUITES[0:1] + QUICK_SUITES[6:14]
+    items += [("suite", tier, a, "c2s", b) for a in reps for b in reps]      # streams crossing a re-key
+    return items
 
 
 def main(tier):
@@ -249,8 +267,9 @@ def main(tier):
          "even if it decodes to the same message" % STRICT_TAMPERED_PACKET])
     items = items_for(tier)
     ck.merge(core.pmap(items, do_suite))
-    P.regroup(ck, {"framing": {"classic-ctr", "classic-cbc", "etm-ctr", "etm-cbc", "gcm"},
-                   "mac": set(P.MACS) | {"-"}, "zlib": {True, False},
+    P.regroup(ck, {"framing": {"classic-ctr", "classic-cbc", "etm-ctr", "etm-cbc", "gcm"} | (
+                       set() if tier == "quick" else {"rekey"}),
+                   "mac": set(P.MACS), "zlib": {True, False},
                    "edit": set(EDIT_CLASS.values()) - {"flip2"}})
     ck.extra["bound"] = {"suites": len(set(i[2] for i in items)), "work_items": len(items),
                          "message_lengths": list(LENGTHS), "double_faults": tier != "quick"}
@@ -260,7 +279,8 @@ def main(tier):
 def replay(rec):
     case = rec["replay"]
     suite, direction, lab, pos = tuple(case["suite"]), case["dir"], case["edit"], tuple(case["pos"])
-    script, newkeys, packets, sent = record(direction, suite)
+    suite2 = tuple(case["suite2"]) if case.get("suite2") else None
+    script, newkeys, packets, sent = record(direction, suite, suite2)
     enc = b"".join(packets)
     cands = [(l, (p,), d) for l, p, d in E.byte_edits(enc)] + list(packet_edits(packets))
     if lab in ("flip2", "len+flip"):
